@@ -78,7 +78,8 @@ Fixpoint run_through (ms : list mop) (n : nat) (st : mstate) : mstate :=
 
 (** the maintenance the harness forces on a recovered store *)
 Definition plan (c : case) (s : rstore) : list maint :=
-  [MtFlushAll] ++ sealed_files (N.to_nat (c_buckets c)) s.
+  let pre := [MtFlushAll] ++ map MtSeal (range_N (N.to_nat (c_buckets c))) in
+  pre ++ sealed_files (N.to_nat (c_buckets c)) (maint_all pre s).
 
 (** the flattened client entries, each as its own batch (entry granularity) *)
 Definition entry_batches (w : list step) : list batch :=
